@@ -365,8 +365,9 @@ SCENARIO = {n: (st, fn, roles) for n, st, fn, roles, _ in SCENARIOS}
 # the calls: every public method x parameter variants (label = parameter class)
 # --------------------------------------------------------------------------------------------------------------------
 FULL2, NICK2, LOCAL = '10.0.0.2:25000', '10.0.0.2', None      # LOCAL is replaced by the identifier of the subject
-STRATS = [('valid', 'CONFIG'), ('valid', 1), ('unknown-strategy', 'BOGUS'), ('unknown-strategy', 99), ('unknown-strategy', 1.5)]
-CSTRATS = [('valid', 'SENICIDE'), ('valid', 'USER'), ('valid', 0), ('unknown-strategy', 'BOGUS'), ('unknown-strategy', 99)]
+STRATS = [('valid', 'CONFIG'), ('valid', 1), ('unknown-strategy', 'BOGUS'), ('unknown-strategy', 99), ('unknown-strategy', 1.5),
+          ('unknown-strategy', True), ('unknown-strategy', False)]       # an XML-RPC <boolean> is not a strategy (bool is an int subclass)
+CSTRATS = [('valid', 'SENICIDE'), ('valid', 'USER'), ('valid', 0), ('unknown-strategy', 'BOGUS'), ('unknown-strategy', 99), ('unknown-strategy', True)]
 APPS = [('valid', 'app'), ('unknown-application', 'ghost'), ('unmanaged', 'unm')]
 NSPECS = [('valid', 'app:p1'), ('valid', 'app:p2'), ('valid', 'app:*'), ('valid', 'unm:u1'), ('unknown-application', 'ghost:p1'),
           ('unknown-process', 'app:ghost'), ('unknown-application', 'ghost:*'), ('unknown-application', 'ghost')]
@@ -425,7 +426,7 @@ def variants(method):
     if method == 'restart_sequence': return [('valid', (False,)), ('valid', (True,))]
     if method == 'end_sync': return [('valid', ()), ('valid', ('',))] + cross(INSTS)
     if method == 'change_log_level':
-        return cross([('valid', 'info'), ('valid', 20), ('bad-value', 'bogus'), ('bad-value', 12345), ('bad-value', 1.5)])
+        return cross([('valid', 'info'), ('valid', 20), ('bad-value', 'bogus'), ('bad-value', 12345), ('bad-value', 1.5), ('bad-value', True)])
     if method in ('enable_host_statistics', 'enable_process_statistics'):
         return [('valid', (True,)), ('valid', (False,)), ('valid/collector', (True,))]
     if method == 'update_collecting_period': return [('valid', (5.0,)), ('valid/collector', (7.5,))]
